@@ -25,7 +25,7 @@ import vlib
 from extractors import t11
 
 HEADER = """From Coq Require Import ZArith List Bool String.
-From C11 Require Import Prim Schema ProofsGen.
+From C11 Require Import Prim Schema Json Types ProofsSchema ProofsGen.
 From Gen Require Import Schemas.
 Import ListNotations.
 Open Scope Z_scope.
@@ -191,6 +191,7 @@ def opts(cache_dir, ff):
     o.incremental = True
     o.cache_dir = cache_dir
     o.fixed_format_cache = ff
+    o.sqlite_cache = False          # one file per module: the data files are compared byte for byte
     o.show_traceback = True
     o.python_version = (3, 12)
     o.mypy_path = spec.get("mypy_path", [])
@@ -335,6 +336,8 @@ for ff in (True, False):
             if data is not None:
                 m["datafile_eq_final_tree"] = (data == b)
                 m["datafile_sha"] = sha(data)
+                if len(data) <= spec.get("keep_data_below", 0):
+                    m["datafile_hex"] = data.hex()
     if ff:
         fresh = d1
     # warm run: every module is loaded from the cache (a new main module imports them all)
@@ -392,6 +395,40 @@ def coq_z(v: int) -> str:
 
 def coq_bytes(b: bytes) -> str:
     return "[" + "; ".join(str(x) for x in b) + "]"
+
+
+def coq_float(f: float) -> str:
+    import struct
+    return "VFloat " + coq_bytes(struct.pack("<d", f))
+
+
+def coq_json(v: Any) -> str:
+    """abstraction of a JSON value into Json.v's value encoding (dict keys in written = sorted order)"""
+    if v is None:
+        return "VNone"
+    if isinstance(v, bool):
+        return f"VBool {'true' if v else 'false'}"
+    if isinstance(v, int):
+        return f"VInt ({v})"
+    if isinstance(v, str):
+        return f"VStr {coq_bytes(v.encode())}"
+    if isinstance(v, float):
+        return coq_float(v)
+    if isinstance(v, list):
+        return "VSome [" + "; ".join(coq_json(x) for x in v) + "]"
+    if isinstance(v, tuple):
+        return "VElse [" + "; ".join(coq_json(x) for x in v) + "]"
+    if isinstance(v, dict):
+        return "VRep [" + "; ".join(f"[VStr {coq_bytes(k.encode())}; {coq_json(v[k])}]" for k in sorted(v)) + "]"
+    raise ValueError(v)
+
+
+def coq_literal(v: Any) -> str:
+    if v is None or isinstance(v, (bool, int, str, float)):
+        return "[" + coq_json(v) + "]"
+    if isinstance(v, complex):
+        return f"[{coq_float(v.real)}; {coq_float(v.imag)}]"
+    return f"[VStr {coq_bytes(v.fullname.encode())}; VStr {coq_bytes(v.name.encode())}]"   # SentinelValue
 
 
 def parse_opt_bytes(s: str) -> list[int] | None:
@@ -674,10 +711,36 @@ def schema_stage(ctx: vlib.Ctx, res: dict[str, Any]) -> None:
         if back != jv or type(back) is not type(jv):
             ctx.violation(f"json-value-roundtrip:{jv!r}"[:80], "read_json_value(write_json_value(v)) != v", {"kind": "json_value", "value": repr(jv)})
         n_ext += 1
+        # Json.v: model encodes = real bytes; model decodes real bytes and re-encodes them identically
+        exprs.append(f"json_write 2 [{coq_json(jv)}]")
+        expect.append(list(buf.getvalue()))
+        names.append(f"json_write {jv!r}"[:60])
+        exprs.append(f"match json_read 2 ({coq_bytes(buf.getvalue())} ++ [7]) with Some (p, r) => match json_write 2 p with Some b => Some (b ++ [1000] ++ r) | None => None end | None => None end")
+        expect.append(list(buf.getvalue()) + [1000, 7])
+        names.append(f"json_read {jv!r}"[:60])
+        if isinstance(jv, dict):
+            b1 = C.WriteBuffer()
+            C.write_json(b1, jv)
+            assert C.read_json(C.ReadBuffer(b1.getvalue())) == jv
+            exprs.append(f"json_write 1 [{coq_json(jv)}]")
+            expect.append(list(b1.getvalue()))
+            names.append(f"write_json {jv!r}"[:60])
     from mypy.types import SentinelValue
+    for lv in [None, 1.5 - 2j]:
+        buf = C.WriteBuffer()
+        C.write_literal(buf, lv)
+        exprs.append(f"lit_write {coq_literal(lv)}")
+        expect.append(list(buf.getvalue()))
+        names.append(f"lit_write {lv!r}")
     for lv in [0, -5, 2 ** 70, "", "é", True, False, 1.5, -0.0, SentinelValue("m.S", "S")]:
         buf = C.WriteBuffer()
         C.write_literal(buf, lv)
+        exprs.append(f"lit_write {coq_literal(lv)}")
+        expect.append(list(buf.getvalue()))
+        names.append(f"lit_write {lv!r}"[:60])
+        exprs.append(f"match lit_read ({coq_bytes(buf.getvalue())} ++ [7]) with Some (p, r) => match lit_write p with Some b => Some (b ++ [1000] ++ r) | None => None end | None => None end")
+        expect.append(list(buf.getvalue()) + [1000, 7])
+        names.append(f"lit_read {lv!r}"[:60])
         rb = C.ReadBuffer(buf.getvalue())
         back = C.read_literal(rb, C.read_tag(rb))
         if repr(back) != repr(lv) and not (isinstance(lv, SentinelValue) and back.fullname == lv.fullname and back.name == lv.name):
@@ -767,10 +830,10 @@ def roundtrip_stage(ctx: vlib.Ctx) -> None:
             size = 60
             groups = [allm[i:i + size] for i in range(0, len(allm), size)]
         for gi, g in enumerate(groups):
-            jobs.append((f"stdlib{gi}", {"root": os.path.join(work, f"s{gi}"), "modules": g}, "0"))
+            jobs.append((f"stdlib{gi}", {"root": os.path.join(work, f"s{gi}"), "modules": g, "keep_data_below": 9000}, "0"))
         # determinism under a different hash seed: the first stdlib group and the programs again
         seed_group = groups[0] if not ctx.quick else ["collections", "dataclasses", "enum", "ssl", "ast", "json", "typing_extensions", "functools"]
-        jobs.insert(1, ("seedgrp", {"root": os.path.join(work, "sa"), "modules": seed_group}, "0"))
+        # (compared with the same modules of job stdlib0: a module's serialisation does not depend on the other roots)
         jobs.append(("seedgrp@seed", {"root": os.path.join(work, "sb"), "modules": seed_group}, "12345"))
         for pn, files in PROGRAMS.items():
             for tag, seed in (("", "0"), ("@seed", "4711")):
@@ -786,7 +849,8 @@ def roundtrip_stage(ctx: vlib.Ctx) -> None:
                     if mod.endswith(".__init__"):
                         mod = mod[:-9]
                     fm[mod] = os.path.join("src", rel)   # relative to the child's cwd: MypyFile.path is part of the serialized interface
-                jobs.append((f"prog:{pn}{tag}", {"root": root, "modules": [], "files": fm, "mypy_path": ["src"], "allow_errors": True}, seed))
+                jobs.append((f"prog:{pn}{tag}", {"root": root, "modules": [], "files": fm, "mypy_path": ["src"], "allow_errors": True,
+                                                 "keep_data_below": 0 if tag else 70000}, seed))
         with ThreadPoolExecutor(max_workers=min(vlib.NPROC, 8)) as ex:
             results = list(ex.map(lambda j: run_child(j[1], j[2], work), jobs))
         by_name: dict[str, dict[str, Any]] = {}
@@ -837,11 +901,13 @@ def roundtrip_stage(ctx: vlib.Ctx) -> None:
                 if m.get("datafile_eq_final_tree") is False:
                     ctx.violation(f"datafile-vs-final-tree:{mod}", f"module {mod}: bytes written to the cache during the build differ from the serialisation of the final tree",
                                   {"job": name, "module": mod})
+        model_file_stage(ctx, by_name)
         # determinism across hash seeds
         n_det = 0
         for name in list(by_name):
-            if name.endswith("@seed") and name[:-5] in by_name:
-                a, b = by_name[name[:-5]]["modules"], by_name[name]["modules"]
+            base = "stdlib0" if name == "seedgrp@seed" else name[:-5]
+            if name.endswith("@seed") and base in by_name:
+                a, b = by_name[base]["modules"], by_name[name]["modules"]
                 for mod in a:
                     if mod not in b:
                         continue
@@ -861,6 +927,40 @@ def roundtrip_stage(ctx: vlib.Ctx) -> None:
             ctx.sample({"module": k, **{a: b for a, b in ms[k].items() if a in ("fresh_bin_bin", "reload_bin_bin", "reload_bin_json", "symbols", "ihash_bin")}})
     finally:
         shutil.rmtree(work, ignore_errors=True)
+
+
+def chunked(b: bytes, n: int = 400) -> str:
+    return "(" + " ++ ".join(coq_bytes(b[i:i + n]) for i in range(0, max(len(b), 1), n)) + ")"
+
+
+def model_file_stage(ctx: vlib.Ctx, by_name: dict[str, dict[str, Any]]) -> None:
+    """L2 tie on whole cache data files written by the real mypy: the Coq model (Types.read_file: MypyFile, SymbolTable,
+    SymbolTableNode, every node/type class, Instance fast paths, literal and JSON codecs) decodes the real bytes, the
+    decoded tree is well-formed, and the model encoder reproduces the bytes exactly (so by data_file_roundtrip the
+    model and the real writer agree on that tree, and the real reader has read exactly these bytes in stage S)."""
+    if not ctx.cov.get("discharged"):
+        return
+    files: list[tuple[str, bytes]] = []
+    for job, r in by_name.items():
+        if "@seed" in job:
+            continue
+        cand = sorted(((m, bytes.fromhex(d["datafile_hex"])) for m, d in r["modules"].items() if "datafile_hex" in d), key=lambda x: len(x[1]))
+        if job.startswith("prog:"):
+            files += [c for c in cand if not any(c[0] == f[0] for f in files)]
+        else:
+            files += [c for c in cand if not any(c[0] == f[0] for f in files)][:ctx.n(8, 25)]
+    exprs = [f"let data := {chunked(b)} in match read_file json_read 200 data with Some (fs, []) => match write_file json_write 200 fs with "
+             f"Some b => Some (zlist_eqb b data, obj_wf 200 MYPY_FILE fs) | None => None end | _ => None end" for _, b in files]
+    out = ctx.eval_cases("files", HEADER, exprs, per_file=2, timeout=900)
+    if out is None:
+        return
+    for (m, b), o in zip(files, out):
+        if o.replace(" ", "") != "Some(true,true)":
+            ctx.broke("C", "Types.v vs real data file", f"module {m} ({len(b)} bytes): model decode/re-encode gives {o[:100]}", {"module": m, "hex": b.hex()[:4000]})
+    ctx.add("evaluations", len(files))
+    ctx.add("traces_validated_against_impl", len(files))
+    ctx.cov["data_files_decoded_by_model"] = {"files": len(files), "bytes": sum(len(b) for _, b in files), "largest": max((len(b) for _, b in files), default=0)}
+    ctx.sample({"data_file": files[0][0] if files else None, "bytes": len(files[0][1]) if files else 0, "model": out[0] if out else None})
 
 
 TD_REPRO = """mkdir t && cd t && printf 'from typing import TypedDict\\nclass TD(TypedDict):\\n    b: int\\n    a: str\\n' > m.py
@@ -898,6 +998,17 @@ def run(ctx: vlib.Ctx) -> None:
         for c, k in ctx.cov["json_key_mismatches"].items():
             ctx.broke("T", f"JSON keys of {c}", f"serialize writes {k['written_not_read']} that deserialize never reads / reads {k['read_not_written']} never written")
         ctx.cov["json_classes_checked"] = len(res["json_keys"])
+        for c, (wn, rn) in sorted(res["names"].items()):
+            bad = [(i, a, b) for i, (a, b) in enumerate(zip(wn, rn)) if a != b and "?" not in (a, b)]
+            if bad or len(wn) != len(rn):
+                ctx.broke("T", f"field names of {c}", f"writer takes {[b[1] for b in bad] or wn} where reader stores {[b[2] for b in bad] or rn} (positions {[b[0] for b in bad]})")
+        ctx.cov["field_names"] = {"classes": len(res["names"]), "names": sum(len(w) for w, _ in res["names"].values()),
+                                  "unresolved": sum(w.count("?") + r.count("?") for w, r in res["names"].values())}
+        for c, (js, bn) in sorted(res["format_fields"].items()):
+            exc = set(t11.FORMAT_EXCEPTIONS.get(c, []))
+            if (set(js) ^ set(bn)) - exc:
+                ctx.broke("T", f"formats of {c}", f"JSON-only attributes {sorted(set(js) - set(bn) - exc)}, binary-only {sorted(set(bn) - set(js) - exc)}")
+        ctx.cov["format_tables"] = {"classes": len(res["format_fields"]), "exceptions": t11.FORMAT_EXCEPTIONS}
         must = {"CacheMeta", "CacheMetaEx", "Var", "FuncDef", "TypeInfo", "MypyFile", "CallableType", "TypeVarType", "helper_errors"}
         missing = must - set(res["schemas"])
         if missing:
